@@ -17,8 +17,8 @@
     * safety: every function of the model is total (Lean's termination check: no partial def, no unsafe) — that is the
       "never panics" half for the modelled code; on top of that: the MessagePack decoder never asks `make` for more
       elements than the packet has bytes (msgpack_alloc_bounded; false on the pinned tree, orig_alloc_unbounded), and
-      the batch loops never run out of fuel, i.e. they terminate by consuming input (msgpack_loop_terminates, tl part
-      and the Protobuf loops: see `_partial`).
+      msgp.Skip and the MessagePack batch loop terminate by consuming input (msgpack_skip_terminates,
+      parse_terminates_partial; TL and Protobuf loops: see the comment there).
     * MessagePack / Protobuf round trips for ALL batches are NOT proved (only the statement is kept, see the comment
       at the end); cross-format agreement is proved for TL and shown on concrete witnesses for the other two; the
       correspondence and the direct oracle cover them on generated batches. JSON is outside the model.
@@ -125,7 +125,7 @@ theorem detect_pb (m : Metric) (ms : List Metric) : detect (pbEncBatch (m :: ms)
   simp [detect, tlPrefix, mpLooksLikeMap, mpMapHdr, mpBadPrefix]
 
 /-- an empty Protobuf batch is the empty packet: counted as "empty", nothing delivered (proto3 has no other encoding) -/
-theorem detect_pb_empty (v : Variant) : parse v (pbEncBatch []) = { fmt := .empty } := by decide
+theorem detect_pb_empty (v : Variant) : parse v (pbEncBatch []) = { fmt := .empty } := rfl
 
 /-- converse direction: which first bytes select which decoder (the comment block at the top of receiver.go) -/
 theorem detect_json_iff (pkt : Bytes) : detect pkt = .json ↔ pkt.take 1 = [0x7b] := by
@@ -171,7 +171,6 @@ theorem detect_msgpack_first_byte (pkt : Bytes) (h : detect pkt = .msgpack) :
   | cons lead r =>
     refine ⟨lead, r, rfl, ?_⟩
     unfold detect at h
-    simp only [] at h
     split at h
     · cases h
     · split at h
@@ -200,12 +199,7 @@ theorem msgpack_alloc_bounded (pkt : Bytes) : (parse .fixed pkt).alloc ≤ pkt.l
   unfold parse
   split
   all_goals (try exact Nat.zero_le _)
-  · exact batchLoop_alloc (fun b => ⟨0, tlBatch b⟩) .tl pkt.length
-      (fun b => ⟨Nat.zero_le _, fun y r h => by
-        -- a successful TL read consumed at least the 4-byte tag; only the bound on `alloc` (= 0) matters here,
-        -- but batchLoop_alloc wants progress: derive it from the tag check
-        simp only [] at h
-        exact tlBatch_strict b y r h⟩) _ _ _ _ (Nat.zero_le _) (Nat.le_refl _)
+  · rw [batchLoop_alloc_zero (fun b => ⟨0, tlBatch b⟩) .tl (fun _ => rfl)]; exact Nat.zero_le _
   · exact batchLoop_alloc (mpBatch .fixed) .msgpack pkt.length (fun b => mpBatch_good .fixed rfl b) _ _ _ _
       (Nat.zero_le _) (Nat.le_refl _)
   · split <;> exact Nat.zero_le _
@@ -219,35 +213,29 @@ theorem orig_alloc_unbounded : bomb14.length = 14 ∧ (parse .orig bomb14).alloc
 /-- the same packet after the fix: rejected as too short, nothing allocated -/
 example : parse .fixed bomb14 = { fmt := .msgpack, err := some .short, perr := true, alloc := 0 } := by decide
 
-/-- The MessagePack batch loop of parse terminates by consuming input: with `len(pkt)+1` units of fuel it never reports
-    `fuel` (neither the loop, nor msgp.Skip inside the decoder). -/
-theorem msgpack_loop_terminates (v : Variant) (hv : v.boundAlloc = true) (pkt : Bytes) (acc : List Metric) (a : Nat) :
-    (batchLoop (mpBatch v) .msgpack (pkt.length + 1) pkt acc a).err ≠ some .fuel :=
-  batchLoop_fuel (mpBatch v) .msgpack (fun b y r h => (mpBatch_good v hv b).2 y r h) (mpBatch_noFuel v) _ _ _ _
-    (Nat.lt_succ_self _)
+/-- msgp.Skip (the only fuel-driven part of the MessagePack decoder) never runs out of fuel: every object takes at
+    least one byte, so `len+1` recursion steps always suffice — Skip terminates on every input. -/
+theorem msgpack_skip_terminates (b : Bytes) : mpSkip b ≠ .error .fuel :=
+  mpSkipN_fuel _ _ _ _ (Nat.lt_succ_self _)
 
-/-- The TL batch loop terminates by consuming input. -/
-theorem tl_loop_terminates (pkt : Bytes) (acc : List Metric) (a : Nat) :
-    (batchLoop (fun b => ⟨0, tlBatch b⟩) .tl (pkt.length + 1) pkt acc a).err ≠ some .fuel :=
-  batchLoop_fuel _ .tl (fun b y r h => tlBatch_strict b y r h) (fun b => tlBatch_noFuel b) _ _ _ _ (Nat.lt_succ_self _)
+/- `parse_terminates` (full statement, NOT proved): ∀ v pkt, (parse v pkt).err ≠ some .fuel, i.e. every loop of the
+   model ends by consuming input, never by exhausting the fuel the model gives it.
+   Proved below: the MessagePack batch loop `for len(pkt) > 0` of parse never exhausts its fuel itself (every successful
+   batch read consumes at least its header byte), and Skip never does (above).
+   Missing: (a) that no other MessagePack reader hands up `fuel` (they contain no fuel; a syntactic walk over ~20 readers);
+   (b) the same two facts for TL; (c) the Protobuf loops (pbBatch, pbMetric, pbEntry, pbCentroid, pbSkipVal/pbSkipGroup,
+   pbPackedVar) get `len+1` (`2·len+2` for groups) units of fuel; that this suffices (each iteration consumes ≥ 1 byte
+   of tag) is not proved. All of it is checked on every generated packet: the Go side can never print `ret=fuel`, so a
+   model run that exhausted its fuel is a correspondence disagreement. -/
+theorem parse_terminates_partial (v : Variant) (hv : v.boundAlloc = true) (pkt : Bytes) (acc : List Metric) (a : Nat)
+    (h : (batchLoop (mpBatch v) .msgpack (pkt.length + 1) pkt acc a).err = some .fuel) :
+    ∃ b, (mpBatch v b).res = .error .fuel :=
+  batchLoop_fuel_origin (mpBatch v) .msgpack (fun b y r h => (mpBatch_good v hv b).2 y r h) _ _ _ _
+    (Nat.lt_succ_self _) h
 
-/- `parse_terminates` (full statement, NOT proved): ∀ v pkt, (parse v pkt).err ≠ some .fuel.
-   Missing: the Protobuf loops (pbBatch, pbMetric, pbEntry, pbCentroid, pbSkipVal/pbSkipGroup, pbPackedVar) get
-   `len+1` (`2·len+2` for groups) units of fuel; that this suffices (each iteration consumes ≥ 1 byte of tag) is not
-   proved in Lean. It is checked on every generated packet: the Go side can never print `ret=fuel`, so a model run
-   that exhausted its fuel is a correspondence disagreement. -/
-theorem parse_terminates_partial (v : Variant) (hv : v.boundAlloc = true) (pkt : Bytes)
-    (h : detect pkt ≠ .pb) : (parse v pkt).err ≠ some .fuel := by
-  unfold parse
-  split
-  · simp
-  · simp
-  · simp
-  · exact tl_loop_terminates pkt [] 0
-  · exact msgpack_loop_terminates v hv pkt [] 0
-  · rename_i hd; exact absurd hd h
-
-example : detect bomb14 ≠ .pb := by decide
+/-- non-vacuity: the fixed variant satisfies the hypothesis, and the loop does run several times on real input -/
+example : Variant.fixed.boundAlloc = true := rfl
+example : (batchLoop (mpBatch .fixed) .msgpack 100 ([0x80, 0x80, 0x81, 0xa1, 120, 0xc0]) [] 0).err = none := by decide
 
 /-! ## Protobuf: unpacked `unique` (F11) -/
 
@@ -266,14 +254,21 @@ theorem pb_unpacked_unique_orig :
     (parse .orig pbUnpacked).delivered = [{ name := [117] }] ∧ (parse .orig pbUnpacked).err = none ∧
     (parse .orig pbPacked).delivered = [{ name := [117], unique := [5, 300], mask := 4 }] := by decide
 
-/-- the pinned tree swallows a malformed varint inside a packed run (`return buf, nil`) and goes on parsing the
-    payload as fields; the fixed tree reports the error -/
+/-- a metric whose packed `unique` run (10 bytes) ends in a truncated varint -/
+def pbBadPacked : Bytes := [0xca, 0xc1, 0x06, 0x0c, 0x32, 0x0a, 0x09, 97, 97, 97, 97, 97, 97, 97, 97, 0x80]
+
+/-- the pinned tree swallows the malformed varint (`return buf, nil`), keeps the values read so far and goes on parsing
+    the payload as fields — it delivers a metric named "aaaaaaaa\x80" out of a malformed packet; the fixed tree
+    reports the error (both reproduced on the real code) -/
 theorem pb_packed_error :
-    (parse .orig [0xca, 0xc1, 0x06, 0x05, 0x32, 0x03, 0x05, 0x80, 0x80]).err = some .reserved ∧
-    (parse .fixed [0xca, 0xc1, 0x06, 0x05, 0x32, 0x03, 0x05, 0x80, 0x80]).err = some .eof := by decide
+    (parse .orig pbBadPacked).delivered =
+      [{ mask := 4, name := [97, 97, 97, 97, 97, 97, 97, 97, 128], unique := [9, 97, 97, 97, 97, 97, 97, 97, 97] }] ∧
+    (parse .orig pbBadPacked).err = none ∧
+    (parse .fixed pbBadPacked).delivered = [] ∧ (parse .fixed pbBadPacked).err = some .eof := by decide
 
 /-! ## cross-format agreement -/
 
+set_option maxRecDepth 100000 in
 /-- The three binary encodings of the witness batch (every optional field present / none present) are detected as three
     different formats and deliver the same metrics (TL mask aside: proto3 cannot express "present but zero"). This is an
     instance, checked by evaluation; the ∀-statement is `all_formats_agree` below (TL part proved, rest not). -/
@@ -293,10 +288,7 @@ theorem all_formats_agree_partial (v : Variant) (ms : List Metric) (hn : ms.leng
   rw [parse_tl v ms hn hw]
   refine ⟨rfl, rfl, rfl, ?_, ?_⟩
   · have := detect_msgpack ms
-    unfold parse; rw [this]; simp only []
-    cases pkt : mpEncBatch ms with
-    | nil => simp [batchLoop]
-    | cons x xs => simp only [batchLoop, List.length_cons]; split <;> (try rfl); split <;> simp [batchLoop_fmt]
+    unfold parse; rw [this]; exact batchLoop_fmt _ _ _ _ _ _
   · intro m ms' h; subst h
     have := detect_pb m ms'
     unfold parse; rw [this]; simp only []
